@@ -524,16 +524,16 @@ func TestC03_ReleaseEnumerated(t *testing.T) {
 	rt.Note("enumerated_scope", fmt.Sprintf("every catalogue row x params x scripts of length <= %d over {1,2} x endings x Unsubscribe at every cut position x {from the harness, from inside Next, from 1-3 other goroutines}", maxLen))
 }
 
-func TestC03_ReleaseChainsRandom(t *testing.T) {
-	rapid.Check(t, func(t *rapid.T) {
-		n := rapid.IntRange(2, 4).Draw(t, "chainLen")
-		links := make([]cat.Link, n)
-		for i := range links {
-			links[i] = genLink(t, false)
-		}
-		s := genScript(t, 6, 1, 3, []byte{'C', 'E', 0})
-		c := cutCase{Links: links, Script: s, Cut: rapid.IntRange(0, len(s)+1).Draw(t, "cut"), How: rapid.SampledFrom([]string{"harness", "other-goroutine"}).Draw(t, "how")}
-		c03RunCut(t, c)
-		rt.Case(caseKey("releasechain", fmt.Sprint(links), s, c.Cut, c.How), c.Cut <= len(s), "release-chain", func() any { return c })
-	})
+func TestC03_ReleaseChainsRandom(t *testing.T) { rapid.Check(t, propC03ReleaseChainsRandom) }
+
+func propC03ReleaseChainsRandom(t *rapid.T) {
+	n := rapid.IntRange(2, 4).Draw(t, "chainLen")
+	links := make([]cat.Link, n)
+	for i := range links {
+		links[i] = genLink(t, false)
+	}
+	s := genScript(t, 6, 1, 3, []byte{'C', 'E', 0})
+	c := cutCase{Links: links, Script: s, Cut: rapid.IntRange(0, len(s)+1).Draw(t, "cut"), How: rapid.SampledFrom([]string{"harness", "other-goroutine"}).Draw(t, "how")}
+	c03RunCut(t, c)
+	rt.Case(caseKey("releasechain", fmt.Sprint(links), s, c.Cut, c.How), c.Cut <= len(s), "release-chain", func() any { return c })
 }
